@@ -1209,6 +1209,8 @@ class RFBClient(Protocol):  # type: ignore[misc]
 
     # --- Pseudo Desktop Size Encoding
     def _handleDecodeDesktopSize(self, width: int, height: int) -> None:
+        self.width = width
+        self.height = height
         self.updateDesktopSize(width, height)
         self._doConnection()
 
